@@ -179,11 +179,12 @@ def stageS (p : SP) (tok : String) : Option SP :=
   let (k, arg) := splitTok tok
   match k with
   | "peek" => some (packS (Stream.withPeek spM) (fun st => st.inner.lg) { inner := p })
-  | "chunk" => some (packS (liftS (Stream.chunk (intOr arg) spM)) (fun st => st.inner.lg) { inner := p })
-  | "compact" => some (packS (Stream.compact (relOf arg) spM) (fun st => st.inner.lg) { inner := p })
+  | "chunk" => some (packS (liftS (Stream.chunk (Gen.Comb.stChunkInitSize (intOr arg)) spM)) (fun st => st.inner.lg) { inner := p })
+  | "compact" => some (packS (Stream.compact (relOf arg) spM) (fun st => st.inner.lg) (Stream.compactInit p))
+  | "compactw" => some (packS (Stream.compactEq spM) (fun st => st.inner.lg) (Stream.compactInit p))
   | "filter" => some (packS (Stream.filter (predE arg) spM) (fun st => st.inner.lg) ⟨p⟩)
   | "map" => some (packS (Stream.map (fnE arg) spM) (fun st => st.inner.lg) ⟨p⟩)
-  | "first" => some (packS (Stream.first spM) (fun st => st.inner.lg) { inner := p, x := intOr arg })
+  | "first" => some (packS (Stream.first spM) (fun st => st.inner.lg) (Stream.firstInit p (intOr arg)))
   | "while" => some (packS (Stream.while_ (predE arg) spM) (fun st => st.inner.lg) { inner := p })
   | "flats" =>
     let mi : Stream.SM SP (List V) := ⟨fun q c => match spM.step q c with
@@ -232,12 +233,13 @@ def stageI (p : IP) (tok : String) : Option IP :=
   let (k, arg) := splitTok tok
   match k with
   | "peek" => some (packI (Iter.withPeek ipM) (fun st => st.inner.lg) { inner := p })
-  | "chunk" => some (packI (liftI (Iter.chunk (intOr arg) ipM)) (fun st => st.inner.lg) { inner := p })
-  | "compact" => some (packI (Iter.compact (relOf arg) ipM) (fun st => st.inner.lg) { inner := p })
+  | "chunk" => some (packI (liftI (Iter.chunk (Gen.Comb.itChunkInitSize (intOr arg)) ipM)) (fun st => st.inner.lg) { inner := p })
+  | "compact" => some (packI (Iter.compact (relOf arg) ipM) (fun st => st.inner.lg) (Iter.compactInit p))
+  | "compactw" => some (packI (Iter.compactEq ipM) (fun st => st.inner.lg) (Iter.compactInit p))
   | "filter" => some (packI (Iter.filter (predOf (splitBang arg).1) ipM) (fun st => st.lg) p)
   | "map" => some (packI (Iter.map (fnOf (splitBang arg).1) ipM) (fun st => st.lg) p)
-  | "first" => some (packI (Iter.first ipM) (fun st => st.inner.lg) { inner := p, x := intOr arg })
-  | "while" => some (packI (Iter.while_ (predOf (splitBang arg).1) ipM) (fun st => st.inner.lg) { inner := p })
+  | "first" => some (packI (Iter.first ipM) (fun st => st.inner.lg) (Iter.firstInit p (intOr arg)))
+  | "while" => some (packI (Iter.while_ (predOf (splitBang arg).1) ipM) (fun st => st.inner.lg) (Iter.whileInit p))
   | "flat" =>
     let tbl := arg.splitOn ";"
     let mo : Iter.IM IP (Iter.Src V) := ⟨fun q => match ipM.step q with
@@ -256,22 +258,40 @@ def stageI (p : IP) (tok : String) : Option IP :=
     | _ => none
   | _ => none
 
+/-- the zero value of the element type (`any`: nil; it never shows in a result) -/
+def zeroV : V := V.i 0
+
 /-- xslices: every stage is a total function on lists, or a panic. -/
 def stageX (l : List V) (tok : String) : Option (List V) :=
   let (k, arg) := splitTok tok
   match k with
   | "chunk" => (XSlices.chunk l (intOr arg)).map fun cs => cs.map V.l
-  | "compact" => some (XSlices.compactFunc (relOf arg) l)
-  | "filter" => some (XSlices.filter (predOf (splitBang arg).1) l)
-  | "map" => some (XSlices.map (fnOf (splitBang arg).1) l)
+  | "compact" => some (XSlices.compactFunc zeroV (relOf arg) l)
+  | "compactw" => some (XSlices.compact zeroV l)
+  | "filter" => some (XSlices.filter zeroV (predOf (splitBang arg).1) l)
+  | "map" => XSlices.map zeroV (fnOf (splitBang arg).1) l
   | "runs" => match arg.splitOn "," with
     | same :: _ => (XSlices.runs (relOf same) l).map fun rs => rs.map V.l
     | _ => none
-  | "join" => some (XSlices.join (l :: (arg.splitOn ";").map fun sc => scriptItems (parseScript sc)))
+  | "join" => XSlices.join zeroV (l :: (arg.splitOn ";").map fun sc => scriptItems (parseScript sc))
   | "repeat" => match l with
-    | a :: _ => XSlices.repeat_ a (intOr arg)
-    | [] => XSlices.repeat_ (V.i 0) (intOr arg)
+    | a :: _ => XSlices.repeat_ zeroV a (intOr arg)
+    | [] => XSlices.repeat_ zeroV (V.i 0) (intOr arg)
   | _ => none
+
+/-- the terminal operation of an `xs` line: `reduce` (`xslices.Reduce`, the fold of `ireduce`),
+`equal=<script>` (`xslices.Equal` with the items of the script), or none (the list itself) -/
+def finishX (l : List V) (tok : Option String) : String :=
+  match tok with
+  | none => "list " ++ (V.l l).show
+  | some t =>
+    let (k, arg) := splitTok t
+    if k == "reduce" then
+      s!"val {(XSlices.reduce zeroV (fun (acc : V) a => V.i (acc.toInt * 3 + a.toInt)) (V.i 0) l).toInt}"
+    else if k == "equal" then s!"equal {XSlices.equal l (scriptItems (parseScript arg))}"
+    else "bad-op"
+
+def isTerminalX (tok : String) : Bool := let k := (splitTok tok).1; k == "reduce" || k == "equal"
 
 /-! ### driver state and operations -/
 
@@ -292,6 +312,7 @@ def showErr : Stream.Err → String
   | .cb n => s!"cb{n}"
   | .empty => "ErrEmpty"
   | .moreThanOne => "ErrMoreThanOne"
+  | .bogus => "bogus"
 
 def showS : Option (Stream.SStep V) → String
   | none => "diverge"
@@ -323,6 +344,8 @@ def buildS (toks : List String) : Option SP :=
         (some (packS (Stream.error (α := V) (.fatal (natOr n))) (fun _ => ([], [])) ()))
     | ("fromit", sc) => stages.foldl (fun acc t => acc.bind (stageS · t))
         (some (packS (Stream.fromIterator Iter.src) (fun s => ([iLog s], [])) (Iter.Src.of (scriptItems (parseScript sc)))))
+    | ("chan", sc) => stages.foldl (fun acc t => acc.bind (stageS · t))
+        (some (packS (Stream.chan (α := V)) (fun _ => ([], [])) { buf := scriptItems (parseScript sc) }))
     | _ => none
   | [] => none
 
@@ -331,10 +354,14 @@ def buildI (toks : List String) : Option IP :=
   | src :: stages =>
     match splitTok src with
     | ("src", sc) => stages.foldl (fun acc t => acc.bind (stageI · t)) (some (mkSrcI sc))
+    | ("slice", sc) => stages.foldl (fun acc t => acc.bind (stageI · t))
+        (some (packI Iter.src (fun _ => ([], [])) (Iter.Src.of (scriptItems (parseScript sc)))))
     | ("counter", n) => stages.foldl (fun acc t => acc.bind (stageI · t))
-        (some (packI (Iter.map V.i (Iter.counter (intOr n))) (fun _ => ([], [])) (0 : Int)))
+        (some (packI (Iter.map V.i (Iter.counterOf (intOr n))) (fun _ => ([], [])) (Iter.counterInit (intOr n))))
     | ("repeat", n) => stages.foldl (fun acc t => acc.bind (stageI · t))
-        (some (packI (Iter.repeat_ (V.i 5)) (fun _ => ([], [])) (intOr n)))
+        (some (packI (Iter.repeat_ (V.i 5)) (fun _ => ([], [])) (Iter.repeatInit (intOr n))))
+    | ("chan", sc) => stages.foldl (fun acc t => acc.bind (stageI · t))
+        (some (packI (Iter.chan (α := V)) (fun _ => ([], [])) { buf := scriptItems (parseScript sc) }))
     | ("empty", _) => stages.foldl (fun acc t => acc.bind (stageI · t))
         (some (packI (Iter.empty (α := V)) (fun _ => ([], [])) ()))
     | _ => none
@@ -405,8 +432,11 @@ def step (s : St) : List String → St × String
   | "xs" :: src :: stages =>
     match splitTok src with
     | ("src", sc) =>
+      let (stages, term) := match stages.getLast? with
+        | some t => if isTerminalX t then (stages.dropLast, some t) else (stages, none)
+        | none => (stages, none)
       match stages.foldl (fun acc t => acc.bind (stageX · t)) (some (scriptItems (parseScript sc))) with
-      | some l => (s, "list " ++ showList l)
+      | some l => (s, finishX l term)
       | none => (s, "panic")
     | _ => (s, "bad-pipeline")
   | "stpk" :: toks =>
